@@ -2,6 +2,7 @@ package main
 
 import (
 	"fmt"
+	"regexp"
 	"os"
 	"sort"
 	"strings"
@@ -71,6 +72,15 @@ func runObligations(obls []*Obligation, timeoutS int, par int) {
 			defer func() { <-sem }()
 			q := o.vc.Query(o, true)
 			o.Query = q
+			if o.Kind == "cover" {
+				// vacuity guard: first look for a tiny witness (all slices empty), then the general query
+				if r := Solve(tinyWorld(q), 3, []string{"z3-new"}, false); r.Status == "sat" {
+					o.Result = r
+					return
+				}
+				o.Result = Solve(q, 5, nil, false)
+				return
+			}
 			// stage 1: one fast solver; stage 2: the full portfolio
 			r := Solve(q, 2, []string{"z3-new"}, false)
 			if r.Status != "unsat" && r.Status != "sat" {
@@ -184,3 +194,17 @@ func cmdFn(args []string) int {
 
 
 
+
+// tinyWorld adds "every slice in the entry state is empty" to a cover query.
+func tinyWorld(q string) string {
+	var extra []string
+	re := regexp.MustCompile(`\(declare-const (\|[^|]*@(?:entry|in)\|) (\(Array Ptr Slice\)|Slice)\)`)
+	for _, m := range re.FindAllStringSubmatch(q, -1) {
+		if m[2] == "Slice" {
+			extra = append(extra, fmt.Sprintf("(assert (= (s.len %s) 0))", m[1]))
+		} else {
+			extra = append(extra, fmt.Sprintf("(assert (forall ((p Ptr)) (! (= (s.len (select %s p)) 0) :pattern ((select %s p)))))", m[1], m[1]))
+		}
+	}
+	return strings.Replace(q, "(check-sat)", strings.Join(extra, "\n")+"\n(check-sat)", 1)
+}
